@@ -98,6 +98,8 @@ def _shape(s):
 class Normaliser:
     def __init__(self, tree, ref, module_key):
         self.tree, self.ref, self.key = tree, ref, module_key
+        import time
+        self.budget_end = time.monotonic() + 25.0
         self.stats = {"functions_changed": 0, "regions_proved": 0, "regions_left": 0, "left": [], "proved": []}
 
     # ------------------------------------------------------------------ entry
@@ -107,6 +109,7 @@ class Normaliser:
         if _dump(self.tree) == _dump(self.ref):
             return self.stats
         self._inline_new_constants()
+        self._pair_renamed_functions()
         ff, rf = _funcs(self.tree), _funcs(self.ref)
         self.ff, self.rf = ff, rf
         self.only_f = {q for q in ff if q not in rf}
@@ -144,6 +147,63 @@ class Normaliser:
         self.stats["regions_left"] = len(self.stats["left"])
         return self.stats
 
+    def _pair_renamed_functions(self):
+        """a nested function that exists under another name on the other side (same parent, same arity, the only unmatched one on
+        each side) is renamed back, together with its direct references; so are positionally renamed parameters of matched
+        nested / private functions that are never called with keywords"""
+        ff, rf = _funcs(self.tree), _funcs(self.ref)
+        by_parent_f, by_parent_r = {}, {}
+        for q, (n, _, parent_q, _) in ff.items():
+            if q not in rf and parent_q is not None:
+                by_parent_f.setdefault(parent_q, []).append(n)
+        for q, (n, _, parent_q, _) in rf.items():
+            if q not in ff and parent_q is not None:
+                by_parent_r.setdefault(parent_q, []).append(n)
+        renamed = []
+        for parent_q, fl in by_parent_f.items():
+            rl = by_parent_r.get(parent_q, [])
+            if len(fl) == 1 and len(rl) == 1 and len(fl[0].args.args) == len(rl[0].args.args) and parent_q in ff and not _dynamic_prefix(fl[0].name):
+                old, new = fl[0].name, rl[0].name
+                parent = ff[parent_q][0]
+                if any(isinstance(x, ast.Name) and x.id == new for x in ast.walk(parent)):
+                    continue
+                for x in ast.walk(parent):
+                    if isinstance(x, ast.Name) and x.id == old:
+                        x.id = new
+                fl[0].name = new
+                renamed.append("%s.%s -> %s" % (parent_q, old, new))
+        # parameters
+        ff = _funcs(self.tree)
+        for q, (fn, _, parent_q, cls) in ff.items():
+            if q not in rf:
+                continue
+            rn = rf[q][0]
+            fa = [a.arg for a in fn.args.posonlyargs + fn.args.args]
+            ra = [a.arg for a in rn.args.posonlyargs + rn.args.args]
+            if fa == ra or len(fa) != len(ra) or fn.args.vararg or fn.args.kwarg or fn.args.kwonlyargs:
+                continue
+            if parent_q is None and not fn.name.startswith("_"):
+                continue        # public functions / methods: parameter names are interface
+            # never called with keywords?
+            kw = False
+            for x in ast.walk(self.tree):
+                if isinstance(x, ast.Call) and x.keywords and ((isinstance(x.func, ast.Name) and x.func.id == fn.name) or (isinstance(x.func, ast.Attribute) and x.func.attr == fn.name)):
+                    kw = True
+            if kw:
+                continue
+            mapping = {a: b for a, b in zip(fa, ra) if a != b}
+            names_in = {x.id for x in ast.walk(fn) if isinstance(x, ast.Name)} | set(fa)
+            if any(b in names_in and b not in mapping for b in mapping.values()):
+                continue
+            for x in ast.walk(fn):
+                if isinstance(x, ast.Name) and x.id in mapping:
+                    x.id = mapping[x.id]
+                elif isinstance(x, ast.arg) and x.arg in mapping:
+                    x.arg = mapping[x.arg]
+            renamed.append("%s(%s)" % (q, ", ".join("%s->%s" % kv for kv in mapping.items())))
+        if renamed:
+            self.stats["renamed_back"] = renamed
+
     # ------------------------------------------------------------------ helpers only one side has
     def _helper_table(self, funcs, only):
         names = Counter()
@@ -170,7 +230,7 @@ class Normaliser:
             for s in tree.body:
                 if isinstance(s, ast.Assign) and len(s.targets) == 1 and isinstance(s.targets[0], ast.Name):
                     counts[s.targets[0].id] += 1
-                    if _immutable_literal(s.value) or _const_collection(s.value):
+                    if _immutable_literal(s.value) or _const_collection(s.value) or _compiled_regex(s.value):
                         out[s.targets[0].id] = s.value
             return {k: v for k, v in out.items() if counts[k] == 1}
         cf, cr = consts(self.tree), consts(self.ref)
@@ -180,6 +240,8 @@ class Normaliser:
         # collections only when every use is a membership test or an iteration
         for k, v in list(new.items()):
             if _const_collection(v) and not self._only_membership(k):
+                del new[k]
+            elif _compiled_regex(v) and not self._only_regex_methods(k):
                 del new[k]
         # not rebound anywhere (global statement / augmented assignment / del)
         for n in ast.walk(self.tree):
@@ -195,6 +257,18 @@ class Normaliser:
                                                             and s.targets[0].id in new)]
         self.stats["constants_inlined"] = sorted(new)
 
+    def _only_regex_methods(self, name):
+        parents = {}
+        for n in ast.walk(self.tree):
+            for c in ast.iter_child_nodes(n):
+                parents[id(c)] = n
+        for n in ast.walk(self.tree):
+            if isinstance(n, ast.Name) and n.id == name and isinstance(n.ctx, ast.Load):
+                par = parents.get(id(n))
+                if not (isinstance(par, ast.Attribute) and par.value is n and par.attr in dtable.REGEX_METHODS and isinstance(parents.get(id(par)), ast.Call)):
+                    return False
+        return True
+
     def _only_membership(self, name):
         parents = {}
         for n in ast.walk(self.tree):
@@ -204,13 +278,30 @@ class Normaliser:
             if isinstance(n, ast.Name) and n.id == name and isinstance(n.ctx, ast.Load):
                 par = parents.get(id(n))
                 ok = (isinstance(par, ast.Compare) and len(par.ops) == 1 and isinstance(par.ops[0], (ast.In, ast.NotIn)) and par.comparators[0] is n) or \
-                     (isinstance(par, (ast.For, ast.comprehension)) and par.iter is n)
+                     (isinstance(par, (ast.For, ast.comprehension)) and par.iter is n) or \
+                     (isinstance(par, ast.Attribute) and par.value is n and par.attr in ("get", "keys", "values", "items") and isinstance(parents.get(id(par)), ast.Call)) or \
+                     (isinstance(par, ast.Subscript) and par.value is n and isinstance(par.ctx, ast.Load))
                 if not ok:
                     return False
         return True
 
     # ------------------------------------------------------------------ functions and blocks
-    def _function(self, q, fnode, rnode):
+    def _closure_env(self, outer, fn):
+        """definitions of the enclosing functions that a nested function may rely on: names bound exactly once, at the top level of the
+        enclosing function, to a side-effect-free expression over its parameters and other such names; shadowed names are dropped"""
+        env = {}
+        for o in (outer or []):
+            env.update(_stable_definitions(o, env))
+        if env:
+            own = {a.arg for a in fn.args.posonlyargs + fn.args.args + fn.args.kwonlyargs}
+            for n in ast.walk(fn):
+                if isinstance(n, ast.Name) and isinstance(n.ctx, (ast.Store, ast.Del)):
+                    own.add(n.id)
+            for k in own:
+                env.pop(k, None)
+        return env
+
+    def _function(self, q, fnode, rnode, outer_f=None, outer_r=None):
         if _dump(fnode) == _dump(rnode):
             return
         self.stats["functions_changed"] += 1
@@ -219,8 +310,9 @@ class Normaliser:
                 self._left(q, "signature differs", fnode)
                 return
             fnode.args = copy.deepcopy(rnode.args)
-        ctx = {"q": q, "fnode": fnode, "rnode": rnode}
-        self._block(fnode.body, rnode.body, ctx, in_loop=False)
+        ctx = {"q": q, "fnode": fnode, "rnode": rnode, "env_f": self._closure_env(outer_f, fnode), "env_r": self._closure_env(outer_r, rnode),
+               "outer_f": outer_f, "outer_r": outer_r}
+        self._block(fnode.body, rnode.body, ctx, in_loop=False, tail="return")
 
     def _args_equivalent(self, fnode, rnode):
         """type annotations and nothing else differ"""
@@ -231,8 +323,10 @@ class Normaliser:
             return _dump(a)
         return strip(fnode.args) == strip(rnode.args) and [_dump(d) for d in fnode.decorator_list] == [_dump(d) for d in rnode.decorator_list]
 
-    def _block(self, fs, rs, ctx, in_loop):
-        """normalise the statement list fs (in place) toward rs"""
+    def _block(self, fs, rs, ctx, in_loop, tail=None):
+        """normalise the statement list fs (in place) toward rs; `tail`: what running off the end of this block means"""
+        self._tail = getattr(self, "_tail", {})
+        self._tail[id(fs)] = tail
         if [_dump(s) for s in fs] == [_dump(s) for s in rs]:
             return True
         fd, rd = [_dump(s) for s in fs], [_dump(s) for s in rs]
@@ -246,26 +340,43 @@ class Normaliser:
             results.append(ok)
             all_ok = all_ok and ok
         if not all_ok:
-            # regions may depend on each other (a temporary introduced in one and used in the next): try the whole span
-            fd2, rd2 = [_dump(s) for s in fs], [_dump(s) for s in rs]
-            if fd2 != rd2:
-                pre = 0
-                while pre < min(len(fd2), len(rd2)) and fd2[pre] == rd2[pre]:
-                    pre += 1
-                suf = 0
-                while suf < min(len(fd2), len(rd2)) - pre and fd2[-1 - suf] == rd2[-1 - suf]:
-                    suf += 1
-                if self._prove(fs, pre, len(fs) - suf, rs, pre, len(rs) - suf, ctx, in_loop, quiet=True):
-                    # the failures recorded for the sub-regions are superseded
-                    self.stats["left"] = [l for l in self.stats["left"] if l.get("q") != ctx["q"] or l.get("_block") != id(fs)]
+            # regions may depend on each other (a temporary introduced in one and used in a later one): grow the span
+            for _ in range(6):
+                fd2, rd2 = [_dump(s) for s in fs], [_dump(s) for s in rs]
+                if fd2 == rd2:
                     return True
+                regs = [(i1, i2, j1, j2) for tag, i1, i2, j1, j2 in SequenceMatcher(None, fd2, rd2, autojunk=False).get_opcodes() if tag != "equal"]
+                done = False
+                for a in range(len(regs)):
+                    for b in range(a + 1, len(regs)):
+                        if self._prove(fs, regs[a][0], regs[b][1], rs, regs[a][2], regs[b][3], ctx, in_loop, quiet=True):
+                            done = True
+                            break
+                    if done:
+                        break
+                if not done:
+                    break
+            fd2, rd2 = [_dump(s) for s in fs], [_dump(s) for s in rs]
+            if fd2 == rd2:
+                return True
+            pre = 0
+            while pre < min(len(fd2), len(rd2)) and fd2[pre] == rd2[pre]:
+                pre += 1
+            suf = 0
+            while suf < min(len(fd2), len(rd2)) - pre and fd2[-1 - suf] == rd2[-1 - suf]:
+                suf += 1
+            if self._prove(fs, pre, len(fs) - suf, rs, pre, len(rs) - suf, ctx, in_loop, quiet=True):
+                return True
+            # an early exit on one side may rely on the statements that follow the differing run: take the run to the end of the block
+            if suf and self._prove(fs, pre, len(fs), rs, pre, len(rs), ctx, in_loop, quiet=True):
+                return True
         return all_ok
 
     def _region(self, fs, i1, i2, rs, j1, j2, ctx, in_loop):
         fseg, rseg = fs[i1:i2], rs[j1:j2]
         # one compound statement on each side with the same header: descend
         if len(fseg) == 1 and len(rseg) == 1 and _shape(fseg[0]) == _shape(rseg[0]) and _shape(fseg[0])[0] != "stmt":
-            if self._descend(fseg[0], rseg[0], ctx, in_loop):
+            if self._descend(fseg[0], rseg[0], ctx, in_loop, self._tail.get(id(fs)), i2 >= len(fs) and j2 >= len(rs)):
                 return True
             if _shape(fseg[0])[0] in ("def", "class"):
                 return False
@@ -282,7 +393,8 @@ class Normaliser:
                         for k in range(a2 - a1):
                             f1, r1 = fs[i1 + a1 + k], rs[j1 + b1 + k]
                             if _dump(f1) != _dump(r1) and _shape(f1)[0] != "stmt":
-                                ok = self._descend(f1, r1, ctx, in_loop) and ok
+                                last = (i1 + a1 + k == len(fs) - 1) and (j1 + b1 + k == len(rs) - 1)
+                                ok = self._descend(f1, r1, ctx, in_loop, self._tail.get(id(fs)), last) and ok
                     else:
                         ok = self._prove(fs, i1 + a1, i1 + a2, rs, j1 + b1, j1 + b2, ctx, in_loop, quiet=True) and ok
                 if ok:
@@ -290,58 +402,66 @@ class Normaliser:
                 i2 = i2 + (len(fs) - n_before)
         return self._prove(fs, i1, i2, rs, j1, j2, ctx, in_loop)
 
-    def _descend(self, f, r, ctx, in_loop):
+    def _descend(self, f, r, ctx, in_loop, parent_tail=None, is_last=False):
         if isinstance(f, (ast.FunctionDef, ast.AsyncFunctionDef)):
             q = ctx["q"] + "." + f.name
             before = self.stats["regions_left"]
-            self._function(q, f, r)
+            self._function(q, f, r, (ctx.get("outer_f") or []) + [ctx["fnode"]], (ctx.get("outer_r") or []) + [ctx["rnode"]])
             return self.stats["regions_left"] == before
         if isinstance(f, ast.ClassDef):
             return self._block(f.body, r.body, ctx, in_loop)
         ok = True
         loop = in_loop or isinstance(f, (ast.For, ast.AsyncFor, ast.While))
+        # falling off a branch continues after the compound statement: it has the enclosing block's meaning only when the
+        # compound statement is the last one of that block
+        inherit = parent_tail if is_last else None
         if isinstance(f, ast.Try):
-            ok = self._block(f.body, r.body, ctx, in_loop) and ok
+            ok = self._block(f.body, r.body, ctx, in_loop, None if (f.orelse or f.finalbody) else inherit) and ok
             for hf, hr in zip(f.handlers, r.handlers):
                 if hf.name != hr.name:
                     self._left(ctx["q"], "handler variable renamed", hf)
                     ok = False
                     continue
-                ok = self._block(hf.body, hr.body, ctx, in_loop) and ok
-            ok = self._block(f.orelse, r.orelse, ctx, in_loop) and ok
-            ok = self._block(f.finalbody, r.finalbody, ctx, in_loop) and ok
+                ok = self._block(hf.body, hr.body, ctx, in_loop, None if f.finalbody else inherit) and ok
+            ok = self._block(f.orelse, r.orelse, ctx, in_loop, None if f.finalbody else inherit) and ok
+            ok = self._block(f.finalbody, r.finalbody, ctx, in_loop, inherit) and ok
             return ok
-        ok = self._block(f.body, r.body, ctx, loop) and ok
+        if isinstance(f, (ast.For, ast.AsyncFor, ast.While)):
+            ok = self._block(f.body, r.body, ctx, True, "continue") and ok
+            ok = self._block(f.orelse, r.orelse, ctx, in_loop, inherit) and ok
+            return ok
+        ok = self._block(f.body, r.body, ctx, loop, inherit) and ok
         if hasattr(f, "orelse"):
-            ok = self._block(f.orelse, r.orelse, ctx, in_loop) and ok
+            ok = self._block(f.orelse, r.orelse, ctx, in_loop, inherit) and ok
         return ok
 
     def _prove(self, fs, i1, i2, rs, j1, j2, ctx, in_loop, quiet=False):
         fseg, rseg = fs[i1:i2], rs[j1:j2]
         if [_dump(s) for s in fseg] == [_dump(s) for s in rseg]:
             return True
-        if any(isinstance(s, (ast.FunctionDef, ast.AsyncFunctionDef, ast.ClassDef)) for s in fseg + rseg):
-            # definitions inside the run: pair by name, prove the rest
-            fdefs = {s.name: s for s in fseg if isinstance(s, (ast.FunctionDef, ast.AsyncFunctionDef))}
-            rdefs = {s.name: s for s in rseg if isinstance(s, (ast.FunctionDef, ast.AsyncFunctionDef))}
-            fseg2 = [s for s in fseg if not isinstance(s, (ast.FunctionDef, ast.AsyncFunctionDef))]
-            rseg2 = [s for s in rseg if not isinstance(s, (ast.FunctionDef, ast.AsyncFunctionDef))]
-            ok = True
-            for nm in fdefs:
-                if nm in rdefs:
-                    ok = self._descend(fdefs[nm], rdefs[nm], ctx, in_loop) and ok
-            if any(isinstance(s, ast.ClassDef) for s in fseg + rseg):
-                ok = False
-            if ok and (fseg2 or rseg2) and [_dump(s) for s in fseg2] != [_dump(s) for s in rseg2]:
-                ok = self._prove_stmts(fseg2, rseg2, fs, i1, i2, ctx, in_loop, quiet)
-            if ok:
-                # keep the definitions that exist only on this side (helpers), take everything else from the reference
-                extra = [s for s in fseg if isinstance(s, (ast.FunctionDef, ast.AsyncFunctionDef)) and s.name not in rdefs]
-                new = extra + [copy.deepcopy(s) if not (isinstance(s, (ast.FunctionDef, ast.AsyncFunctionDef)) and s.name in fdefs) else fdefs[s.name] for s in rseg]
-                fs[i1:i2] = new
-                return True
+        fdefs_all = {n.name: n for s in fseg for n in ast.walk(s) if isinstance(n, (ast.FunctionDef, ast.AsyncFunctionDef))}
+        rdefs_all = {n.name: n for s in rseg for n in ast.walk(s) if isinstance(n, (ast.FunctionDef, ast.AsyncFunctionDef))}
+        if any(isinstance(n, ast.ClassDef) for s in fseg + rseg for n in ast.walk(s)):
             if not quiet:
-                self._left(ctx["q"], "definitions differ", fseg[0] if fseg else None, block=fs)
+                self._left(ctx["q"], "class definition inside the run", fseg[0] if fseg else None, block=fs)
+            return False
+        if fdefs_all or rdefs_all:
+            # a nested definition binds a closure: definitions present on both sides must be (made) equal; the runs are then compared
+            # without them (a definition only one side has is a helper and is inlined where it is called)
+            ok = True
+            for nm, fd in fdefs_all.items():
+                if nm in rdefs_all and _dump(fd) != _dump(rdefs_all[nm]):
+                    before = self.stats["regions_left"]
+                    self._function(ctx["q"] + "." + nm, fd, rdefs_all[nm], (ctx.get("outer_f") or []) + [ctx["fnode"]], (ctx.get("outer_r") or []) + [ctx["rnode"]])
+                    ok = ok and _dump(fd) == _dump(rdefs_all[nm])
+            if not ok:
+                if not quiet:
+                    self._left(ctx["q"], "nested definitions differ", fseg[0] if fseg else None, block=fs)
+                return False
+            if self._prove_stmts(fseg, rseg, fs, i1, i2, ctx, in_loop, quiet):
+                extra = [n for n in fdefs_all.values() if n.name not in rdefs_all and any(n is s for s in fseg)]
+                fs[i1:i2] = extra + [copy.deepcopy(s) for s in rseg]
+                return True
             return False
         if self._prove_stmts(fseg, rseg, fs, i1, i2, ctx, in_loop, quiet):
             fs[i1:i2] = [copy.deepcopy(s) for s in rseg]
@@ -350,15 +470,27 @@ class Normaliser:
 
     def _prove_stmts(self, fseg, rseg, fs, i1, i2, ctx, in_loop, quiet):
         live = self._live_after(fseg, rseg, ctx, in_loop)
+        # the run reaches the end of its block on this side (and then, by alignment, on the other): falling off it has the block's meaning
+        fall = self._tail.get(id(fs)) if i2 >= len(fs) else None
         why = None
+        import time
+        if time.monotonic() > self.budget_end:
+            why = "outside the fragment: time budget of the module exhausted"
+            if not quiet:
+                self._left(ctx["q"], why, fseg[0] if fseg else (rseg[0] if rseg else None), block=fs)
+            return False
+        dtable.DEADLINE[0] = min(time.monotonic() + 4.0, self.budget_end)
         try:
-            eq, diffs = dtable.regions_equal(fseg, rseg, live, helpers_f=self._local_helpers(ctx, "f"), helpers_r=self._local_helpers(ctx, "r"), keep=self.keep)
+            eq, diffs = dtable.regions_equal(fseg, rseg, live, helpers_f=self._local_helpers(ctx, "f"), helpers_r=self._local_helpers(ctx, "r"), keep=self.keep,
+                                             env_f=ctx.get("env_f"), env_r=ctx.get("env_r"), fall=fall)
             if not eq:
                 why = diffs[0] if diffs else "not equivalent"
         except dtable.TooComplex as e:
             why = "outside the fragment: %s" % e
         except RecursionError:
             why = "outside the fragment: recursion"
+        finally:
+            dtable.DEADLINE[0] = None
         if why is None:
             self.stats["regions_proved"] += 1
             if len(self.stats["proved"]) < 40:
@@ -460,6 +592,41 @@ class Normaliser:
                 restored.append(q)
         if restored:
             self.stats["helpers_restored"] = restored
+
+
+def _pure_expr(e):
+    for n in ast.walk(e):
+        if isinstance(n, ast.Call) and not dtable.is_pure_call(n):
+            return False
+        if isinstance(n, (ast.Dict, ast.List, ast.Set, ast.ListComp, ast.DictComp, ast.SetComp, ast.GeneratorExp, ast.Lambda, ast.Await, ast.Yield, ast.YieldFrom, ast.NamedExpr)):
+            return False
+    return True
+
+
+def _stable_definitions(fn, known):
+    counts = Counter()
+    for n in ast.walk(fn):
+        if isinstance(n, ast.Name) and isinstance(n.ctx, (ast.Store, ast.Del)):
+            counts[n.id] += 1
+        elif isinstance(n, (ast.Nonlocal, ast.Global)):
+            for nm in n.names:
+                counts[nm] += 2
+    params = {a.arg for a in fn.args.posonlyargs + fn.args.args + fn.args.kwonlyargs}
+    out = {}
+    for s in fn.body:
+        if isinstance(s, ast.Assign) and len(s.targets) == 1 and isinstance(s.targets[0], ast.Name) and counts[s.targets[0].id] == 1 and s.targets[0].id not in params \
+                and _pure_expr(s.value):
+            free = {n.id for n in ast.walk(s.value) if isinstance(n, ast.Name)}
+            ok = all((nm in params and counts[nm] == 0) or nm in out or nm in known or (counts[nm] == 0 and nm not in params) for nm in free)
+            if ok:
+                env = dict(known)
+                env.update(out)
+                v = dtable.norm_expr(s.value, env)
+                if any(isinstance(x, (ast.Subscript, ast.Attribute, ast.Call)) for x in ast.walk(v)):
+                    # a read of something mutable, taken when the enclosing function started: pinned to that moment
+                    v = ast.Call(ast.Name("_at", ast.Load()), [ast.Constant("entry"), v], [])
+                out[s.targets[0].id] = v
+    return out
 
 
 def _strip_docs_and_annotations(tree):
@@ -569,14 +736,16 @@ def _liveness(func, skip_helpers=None):
     while changed:
         changed = False
         for nid in order:
-            out = set()
-            for m, _ in g.succ[nid]:
-                out |= live_in[m]
+            out_n, out_x = set(), set()
+            for m, l in g.succ[nid]:
+                if isinstance(l, tuple) and l[0] == "exc":
+                    out_x |= live_in[m]
+                else:
+                    out_n |= live_in[m]
+            out = out_n | out_x
             u, d = ud[nid]
-            # a definition in a statement that may raise does not kill on the exceptional edge: keep it simple and sound - a node that may
-            # raise does not kill at all for its exception successors; approximated by not killing when the node has an exception edge
-            has_exc = any(isinstance(l, tuple) and l[0] == "exc" for _, l in g.succ[nid])
-            inn = u | (out if has_exc else (out - d))
+            # a statement that raises has not bound its targets: definitions kill on the normal edges only
+            inn = u | (out_n - d) | out_x
             if out != live_out[nid] or inn != live_in[nid]:
                 live_out[nid], live_in[nid] = out, inn
                 changed = True
@@ -644,11 +813,19 @@ def _immutable_literal(v):
     return False
 
 
-def _const_collection(v):
+def _compiled_regex(v):
+    return isinstance(v, ast.Call) and dtable._dotted(v.func) == "re.compile" and v.args and all(isinstance(a, ast.Constant) or dtable._dotted(a) for a in v.args) and not v.keywords
+
+
+def _const_collection(v, top=True):
+    if isinstance(v, ast.Constant):
+        return not top
     if isinstance(v, (ast.Set, ast.List, ast.Tuple)):
-        return bool(v.elts) and all(isinstance(e, ast.Constant) for e in v.elts)
+        return bool(v.elts) and all(_const_collection(e, False) for e in v.elts)
+    if isinstance(v, ast.Dict):
+        return bool(v.keys) and all(k is not None and isinstance(k, ast.Constant) for k in v.keys) and all(_const_collection(e, False) for e in v.values)
     if isinstance(v, ast.Call) and isinstance(v.func, ast.Name) and v.func.id in ("frozenset", "set", "tuple") and len(v.args) == 1 and not v.keywords:
-        return _const_collection(v.args[0])
+        return _const_collection(v.args[0], top)
     return False
 
 
@@ -690,11 +867,47 @@ class _SubstConst(ast.NodeTransformer):
         rec(tree, set())
 
 
-def normalise(tree, rel, module_key):
-    """normalise `tree` in place; -> stats dict (None when there is no reference for this module)"""
+_code_hash = None
+
+
+def _cache_key(rel, src_digest):
+    global _code_hash
+    import hashlib
+    if _code_hash is None:
+        h = hashlib.sha256()
+        for fn in ("normalise.py", "dtable.py", "canon.py", "canon_table.json", "cfg.py"):
+            with open(os.path.join(HERE, fn), "rb") as f:
+                h.update(f.read())
+        _code_hash = h.hexdigest()
+    h = hashlib.sha256()
+    h.update(_code_hash.encode())
+    h.update(src_digest.encode())
+    p = os.path.join(REFDIR, rel)
+    if os.path.exists(p):
+        with open(p, "rb") as f:
+            h.update(f.read())
+    return h.hexdigest()[:32]
+
+
+def normalise(tree, rel, module_key, src_digest=None):
+    """normalise `tree` in place; -> stats dict (None when there is no reference for this module).
+    The result for a given (module text, reference text, normaliser code) is cached under /verif/.cache (every property check
+    is its own process and would otherwise repeat the same proofs); the cache only ever holds what this function computed."""
     ref = reference_tree(rel, module_key)
     if ref is None:
         return None
+    cache_file = None
+    if src_digest and os.environ.get("VERIF_NO_CACHE") != "1":
+        import pickle
+        cdir = os.path.join(os.path.dirname(HERE), ".cache", "norm")
+        cache_file = os.path.join(cdir, _cache_key(rel, src_digest) + ".pkl")
+        try:
+            with open(cache_file, "rb") as f:
+                body, st = pickle.load(f)
+            tree.body = body
+            return st
+        except Exception:
+            pass
     n = Normaliser(tree, ref, module_key)
     try:
         st = n.run()
@@ -703,4 +916,14 @@ def normalise(tree, rel, module_key):
         st["error"] = "recursion limit"
     for l in st.get("left", []):
         l.pop("_block", None)
+    if cache_file and (st.get("functions_changed") or st.get("constants_inlined")):
+        try:
+            import pickle
+            os.makedirs(os.path.dirname(cache_file), exist_ok=True)
+            tmp = cache_file + ".%d.tmp" % os.getpid()
+            with open(tmp, "wb") as f:
+                pickle.dump((tree.body, st), f)
+            os.replace(tmp, cache_file)
+        except Exception:
+            pass
     return st
